@@ -4,9 +4,13 @@ import (
 	"bytes"
 	"fmt"
 	"os"
+	"os/exec"
+	"path/filepath"
 	"sort"
 	"strconv"
 	"strings"
+	"sync"
+	"time"
 
 	"github.com/syndtr/goleveldb/leveldb"
 
@@ -90,35 +94,50 @@ var schedScenarios = []schedScenario{
 	{name: "pop-pop-add", setup: []int{0, 1, 4}, writer: []Op{{K: "P"}, {K: "P"}, {K: "C", A: 3}}},
 }
 
-func buildScenario(c *xs.Ctx, r *xs.Result, sc schedScenario) sched.Scenario {
-	return func(s *vsync.Sched) func(x *sched.Exec) {
-		dir := c.TempDir()
-		mgr := db.NewLevelDBManager(dir)
-		ref := newRef()
-		byID := map[types.HashHeight]content{types.ZeroHashHeight: {}}
-		commit := func(ws int) {
-			tx, cm := newTx(ref.frontier(), ws, 0)
-			data, _ := cm.Serialize()
-			nc := ref.frontierContent().clone()
-			for _, w := range writeSets[ws] {
-				nc.apply(w)
-			}
-			bookkeeping(nc, cm.Identifier(), data)
-			ref.stack = append(ref.stack, cm.Identifier())
-			ref.versions = append(ref.versions, nc)
-			byID[cm.Identifier()] = nc
-			if err := mgr.Add(tx); err != nil {
-				panic(err)
-			}
+// scenarioInst is one instance of a scenario: a real manager with the setup commits applied, the thread bodies, and the
+// judgement of what the threads observed. The bodies are the same whether they run as threads of the controlled
+// scheduler (buildScenario) or as free-running goroutines under the race detector (RacePass).
+type scenarioInst struct {
+	dir    string
+	mgr    db.Manager
+	bodies []func()
+	names  []string
+	judge  func(r *xs.Result, rep map[string]interface{}, name string) []string
+	close  func()
+}
+
+func newScenarioInst(c *xs.Ctx, sc schedScenario) *scenarioInst {
+	dir := c.TempDir()
+	mgr := db.NewLevelDBManager(dir)
+	ref := newRef()
+	byID := map[types.HashHeight]content{types.ZeroHashHeight: {}}
+	var byIDMu sync.Mutex // harness state shared between the writer body and the judgement only
+	commit := func(ws int) {
+		tx, cm := newTx(ref.frontier(), ws, 0)
+		data, _ := cm.Serialize()
+		nc := ref.frontierContent().clone()
+		for _, w := range writeSets[ws] {
+			nc.apply(w)
 		}
-		for _, ws := range sc.setup {
-			commit(ws)
+		bookkeeping(nc, cm.Identifier(), data)
+		ref.stack = append(ref.stack, cm.Identifier())
+		ref.versions = append(ref.versions, nc)
+		byIDMu.Lock()
+		byID[cm.Identifier()] = nc
+		byIDMu.Unlock()
+		if err := mgr.Add(tx); err != nil {
+			panic(err)
 		}
-		oldID := ref.stack[1]
-		oldContent := ref.versions[1]
-		var obs []snapshotObs
-		db.VerifWriteHook = func(site string) { vsync.Yield(site) }
-		s.Go("writer", func() {
+	}
+	for _, ws := range sc.setup {
+		commit(ws)
+	}
+	oldID := ref.stack[1]
+	oldContent := ref.versions[1]
+	obs := make([][]snapshotObs, 4) // one slice per thread: the bodies share nothing but the manager
+	in := &scenarioInst{dir: dir, mgr: mgr, names: []string{"writer", "reader-old", "reader-old-late", "reader-frontier"}}
+	in.bodies = []func(){
+		func() {
 			for _, o := range sc.writer {
 				switch o.K {
 				case "C":
@@ -131,40 +150,81 @@ func buildScenario(c *xs.Ctx, r *xs.Result, sc schedScenario) sched.Scenario {
 					ref.versions = ref.versions[:len(ref.versions)-1]
 				}
 			}
-		})
-		s.Go("reader-old", func() {
+		},
+		func() {
 			for i := 0; i < 2; i++ {
 				v := mgr.Get(oldID)
 				if v == nil {
-					obs = append(obs, snapshotObs{"old", oldID, "nil-view"})
+					obs[1] = append(obs[1], snapshotObs{"old", oldID, "nil-view"})
 					continue
 				}
-				obs = append(obs, snapshotObs{"old", oldID, readAll(v)})
+				obs[1] = append(obs[1], snapshotObs{"old", oldID, readAll(v)})
 			}
-		})
+		},
 		// a second historical reader with a single late read: together with reader-old it makes "one reader warms the
 		// cache inside a window of the writer, another one reads after the writer has moved on" reachable with ONE preemption
-		s.Go("reader-old-late", func() {
+		func() {
 			v := mgr.Get(oldID)
 			if v == nil {
-				obs = append(obs, snapshotObs{"old", oldID, "nil-view"})
+				obs[2] = append(obs[2], snapshotObs{"old", oldID, "nil-view"})
 				return
 			}
-			obs = append(obs, snapshotObs{"old", oldID, readAll(v)})
-		})
-		s.Go("reader-frontier", func() {
+			obs[2] = append(obs[2], snapshotObs{"old", oldID, readAll(v)})
+		},
+		func() {
 			for i := 0; i < 2; i++ {
 				f := mgr.Frontier()
 				id := db.GetFrontierIdentifier(f)
-				obs = append(obs, snapshotObs{"frontier", id, readAll(f)})
+				obs[3] = append(obs[3], snapshotObs{"frontier", id, readAll(f)})
 			}
-		})
+		},
+	}
+	in.judge = func(r *xs.Result, rep map[string]interface{}, name string) []string {
+		var outcome []string
+		for _, th := range obs {
+			for _, o := range th {
+				outcome = append(outcome, fmt.Sprintf("%s@%d", o.who, o.id.Height))
+				switch o.who {
+				case "old":
+					if want := refReads(oldContent); o.reads != want {
+						r.Violate("C07:sched:"+name+":historical-view-wrong", fmt.Sprintf("view at commit %v read %s, want %s", o.id, o.reads, want), rep)
+					}
+				case "frontier":
+					byIDMu.Lock()
+					want, ok := byID[o.id]
+					byIDMu.Unlock()
+					if !ok {
+						r.Violate("C07:sched:"+name+":frontier-id-unknown", fmt.Sprintf("frontier view reports identifier %v that was never committed", o.id), rep)
+					} else if w := refReads(want); o.reads != w {
+						r.Violate("C07:sched:"+name+":frontier-view-half-applied", fmt.Sprintf("frontier view reporting commit %v (height %d) read %s, but that commit's state is %s", o.id.Hash, o.id.Height, o.reads, w), rep)
+					}
+				}
+			}
+		}
+		// final store must equal the reference frontier
+		f := mgr.Frontier()
+		if got, want := readAll(f), refReads(ref.frontierContent()); got != want {
+			r.Violate("C07:sched:"+name+":final-store-wrong", fmt.Sprintf("final frontier reads %s want %s", got, want), rep)
+		}
+		return outcome
+	}
+	in.close = func() {
+		mgr.Stop()
+		removeAll(dir)
+	}
+	return in
+}
+
+func buildScenario(c *xs.Ctx, r *xs.Result, sc schedScenario) sched.Scenario {
+	return func(s *vsync.Sched) func(x *sched.Exec) {
+		in := newScenarioInst(c, sc)
+		db.VerifWriteHook = func(site string) { vsync.Yield(site) }
+		for i, b := range in.bodies {
+			s.Go(in.names[i], b)
+		}
 		return func(x *sched.Exec) {
 			db.VerifWriteHook = nil
-			defer func() {
-				mgr.Stop()
-				removeAll(dir)
-			}()
+			defer in.close()
 			if x.Skipped {
 				return
 			}
@@ -179,31 +239,37 @@ func buildScenario(c *xs.Ctx, r *xs.Result, sc schedScenario) sched.Scenario {
 					return
 				}
 			}
-			var outcome []string
-			for _, o := range obs {
-				outcome = append(outcome, fmt.Sprintf("%s@%d", o.who, o.id.Height))
-				switch o.who {
-				case "old":
-					if want := refReads(oldContent); o.reads != want {
-						r.Violate("C07:sched:"+sc.name+":historical-view-wrong", fmt.Sprintf("view at commit %v read %s, want %s", o.id, o.reads, want), rep)
-					}
-				case "frontier":
-					want, ok := byID[o.id]
-					if !ok {
-						r.Violate("C07:sched:"+sc.name+":frontier-id-unknown", fmt.Sprintf("frontier view reports identifier %v that was never committed", o.id), rep)
-					} else if w := refReads(want); o.reads != w {
-						r.Violate("C07:sched:"+sc.name+":frontier-view-half-applied", fmt.Sprintf("frontier view reporting commit %v (height %d) read %s, but that commit's state is %s", o.id.Hash, o.id.Height, o.reads, w), rep)
-					}
-				}
-			}
+			outcome := in.judge(r, rep, sc.name)
 			r.Add("sched_outcomes", sc.name+":"+strings.Join(outcome, ","))
-			// final store must equal the reference frontier
-			f := mgr.Frontier()
-			if got, want := readAll(f), refReads(ref.frontierContent()); got != want {
-				r.Violate("C07:sched:"+sc.name+":final-store-wrong", fmt.Sprintf("final frontier reads %s want %s", got, want), rep)
+		}
+	}
+}
+
+// RacePass runs the scenario bodies as free-running goroutines, `iters` times each (called from the -race build,
+// cmd/zmc-race: the cooperative scheduler's hand-offs are happens-before edges and would blind the detector). The
+// observations are judged by the same oracle; returns the executions made and the first violation text ("" if none).
+func RacePass(dir string, iters int) (int, string) {
+	c := &xs.Ctx{ID: "C07", Tier: "quick", Scratch: dir, Deadline: time.Now().Add(10 * time.Minute)}
+	n := 0
+	for it := 0; it < iters; it++ {
+		for _, sc := range schedScenarios {
+			in := newScenarioInst(c, sc)
+			var wg sync.WaitGroup
+			for _, b := range in.bodies {
+				wg.Add(1)
+				go func(b func()) { defer wg.Done(); b() }(b)
+			}
+			wg.Wait()
+			n++
+			r := xs.NewResult()
+			in.judge(r, map[string]interface{}{"scenario": sc.name, "free-running": true}, sc.name)
+			in.close()
+			if len(r.Violations) > 0 {
+				return n, r.Violations[0].Key + ": " + r.Violations[0].What
 			}
 		}
 	}
+	return n, ""
 }
 
 func runSched(c *xs.Ctx, r *xs.Result) {
@@ -255,5 +321,75 @@ func replaySched(c *xs.Ctx, r *xs.Result, name string, choices []int) {
 		r.Count("sched_executions", e.Stats.Executions)
 		r.Count("sched_points", e.Stats.Points)
 		r.Count("sched_states", 1)
+	}
+}
+
+// runRacePass executes the -race binary (if it was built) as a child process and turns its findings into violations.
+func runRacePass(c *xs.Ctx, r *xs.Result) {
+	bin := filepath.Join(xs.VerifRoot, ".work", "bin", "zmc-race")
+	if b := os.Getenv("VERIF_RACE_BIN"); b != "" {
+		bin = b // tools/mutcheck.sh points this at the binary built against the candidate change
+	}
+	if _, err := os.Stat(bin); err != nil {
+		r.Note("C07 race pass skipped: %s not built", bin)
+		return
+	}
+	iters := "20"
+	if c.Thorough() {
+		iters = "200"
+	}
+	cmd := exec.Command(bin, iters, c.TempDir(), "c07")
+	cmd.Env = append(os.Environ(), "GORACE=halt_on_error=1 exitcode=66")
+	out, err := cmd.CombinedOutput()
+	code := cmd.ProcessState.ExitCode()
+	text := string(out)
+	switch {
+	case code == 66 || strings.Contains(text, "WARNING: DATA RACE"):
+		var frames []string
+		for _, l := range strings.Split(text, "\n") {
+			l = strings.TrimSpace(l)
+			if strings.HasPrefix(l, "github.com/zenon-network/go-zenon/") && len(frames) < 2 {
+				fn := strings.TrimPrefix(l, "github.com/zenon-network/go-zenon/")
+				if i := strings.LastIndex(fn, "("); i > 0 {
+					fn = fn[:i]
+				}
+				frames = append(frames, fn)
+			}
+		}
+		if i := strings.Index(text, "WARNING: DATA RACE"); i >= 0 {
+			text = text[i:]
+		}
+		if len(text) > 2500 {
+			text = text[:2500]
+		}
+		r.Violate("C07:race:"+strings.Join(frames, "|"), "data race reported by the free-running -race pass of the writer / reader bodies:\n"+text, map[string]interface{}{"part": "race"})
+	case code == 67:
+		msg := text
+		if i := strings.Index(text, "VIEW MISMATCH"); i >= 0 {
+			msg = text[i:]
+		}
+		if len(msg) > 2000 {
+			msg = msg[:2000]
+		}
+		r.Violate("C07:free-running:reader-observation-wrong", msg, map[string]interface{}{"part": "race"})
+	case err != nil:
+		t := text
+		if i := strings.Index(t, "panic: "); i >= 0 {
+			t = t[i:]
+		}
+		if len(t) > 3000 {
+			t = t[:3000]
+		}
+		if frame, inNode := xs.CrashSite(t); inNode {
+			r.Violate("C07:free-running:node-code-panics:"+frame, "the free-running pass of the writer / reader bodies died inside go-zenon code:\n"+t, map[string]interface{}{"part": "race"})
+			return
+		}
+		panic(fmt.Sprintf("race pass failed (exit %d): %s", code, t))
+	default:
+		var nexec int
+		for _, l := range strings.Split(text, "\n") {
+			fmt.Sscanf(l, "race-pass executions=%d", &nexec)
+		}
+		r.Count("race_pass_executions", int64(nexec))
 	}
 }
